@@ -19,7 +19,7 @@ RULE = ("fault space = truncation points of the writer: frame sizes 2*nc for nc 
         "distinct = distinct (nc, frames, trailing, claim, fs, reader class)")
 ASSUMPTIONS = ["truncation = a prefix of the byte stream the writer would have produced", "at least one complete frame is present",
                "still-acquiring metadata (no fileTimeSecs / fileSizeBytes yet) is only given to OnlineReader, the class meant for it"]
-REQUIRED = {"constructions": 400, "prefix_values_checked": 400, "half_frame_or_more": 100, "beyond_end_reads": 400, "cbin_short": 2, "deferred_opens": 60, "reopens_after_growth": 100, "metadata_without_size_field": 100, "online_live_sizes": 20, "long_off_by_few": 6, "other_sample_widths": 40}
+REQUIRED = {"constructions": 400, "resaved_headers": 60, "prefix_values_checked": 400, "half_frame_or_more": 100, "beyond_end_reads": 400, "cbin_short": 2, "deferred_opens": 60, "reopens_after_growth": 100, "metadata_without_size_field": 100, "online_live_sizes": 20, "long_off_by_few": 6, "other_sample_widths": 40}
 CASE_TIMEOUT = 400.0
 NCS = [2, 5, 97, 277, 385]
 FRAMES = [1, 2, 22, 1000]
@@ -139,6 +139,25 @@ def run_case(case):
                     sr.close()
                     if trailing > 0 or claim != "equal":
                         nt += 1
+                # headers that went through the library's own writer (converted / split / re-saved recordings), announcing one or two
+                # frames - durations far below a millisecond - next to a binary of another length (round 19)
+                if trailing in case["trailing"][:3]:
+                    for claim2 in (1, 2, max(1, frames - 1)):
+                        rec2 = G.make(rng, kind=kind, sites=rec.sites, ns=frames + 1, fs=fs, claim_ns=claim2, content="random", raw=rec.raw)
+                        label = f"Reader, header re-saved with write_meta_data, nc={nc} frames={frames} trailing={trailing}B claim={claim2} fs={fs}"
+                        try:
+                            tmpm = d / "src.ap.meta"
+                            tmpm.write_text(rec2.meta_text)
+                            spikeglx.write_meta_data(spikeglx.read_meta_data(tmpm), b.with_suffix(".meta"))
+                            tmpm.unlink()
+                            sr = spikeglx.Reader(b, sort=False, ignore_warnings=bool(rng.integers(0, 2)))
+                            res.count("constructions")
+                            res.count("resaved_headers")
+                        except Exception as e:
+                            res.exception("reader:resaved-header:open-exception", e, label)
+                            continue
+                        judge(res, sr, rec.raw, s2v, frames, label, "reader:resaved-header")
+                        sr.close()
         res.sig = f"truncate-{nc}-{frames}-{case['trailing'][0]}"
     elif case["cls"] == "deferred":
         # the reader is instantiated with open=False, the file keeps changing (recording / copy in progress), then it is opened:
